@@ -57,6 +57,97 @@ def bytestr_edits(src, m, a, b):
         res.append((st, en, rep))
     return res
 
+def decode_rust_str(body):
+    """decode the body of a normal Rust string literal to bytes (UTF-8)"""
+    out = bytearray(); i = 0
+    while i < len(body):
+        c = body[i]
+        if c == '\\':
+            n = body[i + 1]
+            if n == 'x': out.append(int(body[i + 2:i + 4], 16)); i += 4
+            elif n == 'n': out.append(10); i += 2
+            elif n == 'r': out.append(13); i += 2
+            elif n == 't': out.append(9); i += 2
+            elif n == '0': out.append(0); i += 2
+            elif n == '\\': out.append(92); i += 2
+            elif n == '"': out.append(34); i += 2
+            elif n == "'": out.append(39); i += 2
+            elif n == '\n':
+                i += 2
+                while i < len(body) and body[i] in ' \t\n\r': i += 1
+            elif n == 'u':
+                j = body.index('}', i)
+                out += chr(int(body[i + 3:j], 16)).encode('utf-8'); i = j + 1
+            else: raise LostAnchor('unknown escape \\%s in string literal' % n)
+        else:
+            out += c.encode('utf-8'); i += 1
+    return bytes(out)
+
+def format_edits(src, m, a, b, disp=''):
+    """rule R8: format!(LIT, args..) with only `{}` placeholders -> crate::shim::fmt_catN(&PIECES.., &args..).
+    Returns [(start, end, replacement, pieces)].  Anything else raises LostAnchor (exit 2)."""
+    res = []
+    for mo in re.finditer(r'(?<![A-Za-z0-9_])format!\s*\(', m[a:b]):
+        st = a + mo.start()
+        po = a + mo.end() - 1
+        pc = rustscan.match_close(m, po)
+        inner_m = m[po + 1:pc]
+        # first argument: a string literal
+        k = po + 1
+        while m[k].isspace(): k += 1
+        if m[k] != '"':
+            raise LostAnchor('format! whose first argument is not a plain string literal (line %d)' % rustscan.line_of(src, st))
+        e = m.index('"', k + 1)
+        lit = decode_rust_str(src[k + 1:e])
+        # arguments: split at top-level commas
+        args = []
+        depth = 0; cur = e + 1
+        j = e + 1
+        while j < pc:
+            ch = m[j]
+            if ch in '([{': depth += 1
+            elif ch in ')]}': depth -= 1
+            elif ch == ',' and depth == 0:
+                if src[cur:j].strip(): args.append(src[cur:j].strip())
+                cur = j + 1
+            j += 1
+        if src[cur:pc].strip().strip(','):
+            args.append(src[cur:pc].strip().strip(','))
+        args = [x for x in args if x]
+        if re.search(rb'\{[^}]+\}', lit.replace(b'{{', b'').replace(b'}}', b'')):
+            raise LostAnchor('format! with a placeholder other than {} (line %d)' % rustscan.line_of(src, st))
+        pieces = lit.split(b'{}')
+        if len(pieces) != len(args) + 1:
+            raise LostAnchor('format! placeholder/argument count mismatch (line %d)' % rustscan.line_of(src, st))
+        if len(args) > 4 or len(args) < 1:
+            raise LostAnchor('format! with %d arguments is outside the accepted subset' % len(args))
+        nm_ = re.sub(r'[^A-Za-z0-9]+', '_', disp)
+        idx_ = len(res)
+        pref_ = ['crate::fmtpieces::%s_%d_p%d()' % (nm_, idx_, k_) for k_ in range(len(pieces))]
+        parts = [pref_[0]]
+        for ai, ar in enumerate(args):
+            parts.append('&(' + ar + ')'); parts.append(pref_[ai + 1])
+        # statement-level `let x = format!(..)..;`: hoist the arguments into named lets (same evaluation order)
+        pre = m[max(a, st - 200):st]
+        mlet = re.search(r'\blet\s+(mut\s+)?([A-Za-z_][A-Za-z0-9_]*)\s*(:[^=;]+)?=\s*$', pre)
+        if mlet:
+            idx = len(res)
+            names = ['fmt%d_a%d' % (idx, ai) for ai in range(len(args))]
+            parts = [pref_[0]]
+            for ai, ar in enumerate(args):
+                parts.append('&' + names[ai]); parts.append(pref_[ai + 1])
+            lets = ' '.join('let %s = %s;' % (names[ai], ar) for ai, ar in enumerate(args))
+            st2 = st - (len(pre) - mlet.start())
+            head = src[st2:st]
+            rep = lets + ' ' + head + 'crate::shim::fmt_cat%d(%s)' % (len(args), ', '.join(parts))
+            rep += '\n' * src[st2:pc + 1].count('\n')
+            res.append((st2, pc + 1, rep, pieces))
+            continue
+        rep = 'crate::shim::fmt_cat%d(%s)' % (len(args), ', '.join(parts))
+        rep += '\n' * src[st:pc + 1].count('\n')
+        res.append((st, pc + 1, rep, pieces))
+    return res
+
 class Emitter:
     def __init__(self):
         self.chunks = []   # (text, origin) origin = (kind, file, line0) ; line0 = line of first char
@@ -271,6 +362,10 @@ class Unit:
             em.mark(('fn_end', disp, mode))
             return info
         if mode == 'stub':
+            if item.body_open is not None:
+                for st_, en_, rep_, pieces_ in format_edits(src, m, item.body_open, item.end, disp):
+                    self.fmt_pieces = getattr(self, 'fmt_pieces', {})
+                    self.fmt_pieces.setdefault(disp, []).append(pieces_)
             G(' { unimplemented!() }\n')
             em.mark(('fn_end', disp, mode))
             self.report['functions_stubbed'].append(info)
@@ -351,7 +446,28 @@ class Unit:
                 a0 = bo + mo.start()
                 edits.append((a0, mo.end() - mo.start(), [(newt + '\n' * missing, ('repo', repo_file, line(a0)))]))
                 self.report['rewrites'].append({'rule': rule, 'file': repo_file, 'line': line(a0), 'before': mo.group(0), 'after': newt})
+        # rule R22: after `let x = "literal";` reveal the literal's length/ASCII facts (text copied from the source)
+        for mo in re.finditer(r'\blet\s+(?:mut\s+)?[A-Za-z_][A-Za-z0-9_]*\s*=\s*"', m[bo:item.end]):
+            q0 = bo + mo.end() - 1
+            q1 = m.index('"', q0 + 1)
+            k2 = q1 + 1
+            while m[k2].isspace(): k2 += 1
+            if m[k2] != ';':
+                continue
+            lit_src = src[q0:q1 + 1]
+            ins = ' proof { reveal_strlit(' + lit_src.replace('\n', '\n') + '); }'
+            # keep line structure: the literal may span lines; the inserted copy adds lines, which is fine for insertions
+            edits.append((k2 + 1, 0, [(ins, ('gen', None, 0))]))
+            self.report['rewrites'].append({'rule': 'R22', 'file': repo_file, 'line': line(q0), 'before': '', 'after': 'reveal_strlit(<same literal>)'})
+        fmt_spans = []
+        for st_, en_, rep_, pieces_ in format_edits(src, m, bo, item.end, disp):
+            edits.append((st_, en_ - st_, [(rep_, ('repo', repo_file, line(st_)))]))
+            fmt_spans.append((st_, en_))
+            self.report['rewrites'].append({'rule': 'R8', 'file': repo_file, 'line': line(st_), 'before': src[st_:en_][:60], 'after': rep_[:80]})
+            self.fmt_pieces = getattr(self, 'fmt_pieces', {})
+            self.fmt_pieces.setdefault(disp, []).append(pieces_)
         for st_, en_, rep_ in bytestr_edits(src, m, bo, item.end):
+            if any(a_ <= st_ < b_ for a_, b_ in fmt_spans): continue
             edits.append((st_, en_ - st_, [(rep_, ('repo', repo_file, line(st_)))]))
             self.report['rewrites'].append({'rule': 'R20', 'file': repo_file, 'line': line(st_), 'before': src[st_:en_][:40], 'after': rep_[:40]})
         edits.sort(key=lambda e: (e[0], e[1]))
@@ -535,6 +651,7 @@ class Unit:
                 if ('!' + self.name) in only.split():
                     continue
                 for t, no in blk.lines:
+                    t = re.sub(r'/\*PROVED_IN:(\w+)\*/ ', lambda mo_: '' if mo_.group(1) == self.name else '#[verifier::external_body] ', t)
                     em.emit(t + '\n', ('vspec', blk.file, no))
 
     # ------------------------------------------------------------------ whole unit
@@ -574,6 +691,18 @@ class Unit:
         if tree.get('files'):
             G(''.join(l + '\n' for l in mod_prelude.split('\n') if l and 'use vstd::prelude' not in l and 'use crate::{' not in l))
         emit_node(tree, 0)
+        if getattr(self, 'fmt_pieces', None):
+            G('/// rule R8: the literal pieces of every rewritten format! template, decoded from the source text\n')
+            G('pub mod fmtpieces {\n    use vstd::prelude::*;\n')
+            for disp_, lst in self.fmt_pieces.items():
+                nm = re.sub(r'[^A-Za-z0-9]+', '_', disp_)
+                for n_, pcs in enumerate(lst):
+                    for k_, pc_ in enumerate(pcs):
+                        G('    pub open spec fn %s_%d_P%d() -> Seq<u8> { seq![%s] }\n' % (nm, n_, k_, ', '.join('%du8' % x for x in pc_)) if pc_ else
+                          '    pub open spec fn %s_%d_P%d() -> Seq<u8> { Seq::<u8>::empty() }\n' % (nm, n_, k_))
+                        G('    pub fn %s_%d_p%d() -> (r: &\'static [u8]) ensures r@ == %s_%d_P%d() { let a: &\'static [u8; %d] = &[%s]; assert(a@ =~= %s_%d_P%d()); a }\n' % (
+                            nm, n_, k_, nm, n_, k_, len(pc_), ', '.join('%du8' % x for x in pc_), nm, n_, k_))
+            G('}\n')
         if getattr(self, 'canary', False):
             G('pub mod canary {\n    use vstd::prelude::*;\n')
             for cname, disp in getattr(self, 'canaries', []):
